@@ -8,11 +8,11 @@
 (***************************************************************************)
 EXTENDS Equations, Certificates, TraceKit
 
-VARIABLES l, m, fr, env, fm, bo
-vars == <<l, m, fr, env, fm, bo>>
+VARIABLES l, m, fr, env, fm, bo, pm
+vars == <<l, m, fr, env, fm, bo, pm>>
 
 None == [none |-> TRUE]
-Init == l = 1 /\ m = None /\ fr = None /\ env = None /\ fm = None /\ bo = None
+Init == l = 1 /\ m = None /\ fr = None /\ env = None /\ fm = None /\ bo = None /\ pm = None
 
 Want(p) == env # None /\ \E j \in DOMAIN env.want : env.want[j] = p
 
@@ -73,7 +73,7 @@ DoBuildForce(e) ==
               c02.hits \cup c16.hits, {}, c02.rejected \/ c16.rejected)
   /\ fm' = IF e.raised # "" THEN None ELSE e.fm
   /\ bo' = e.opts
-  /\ UNCHANGED <<m, fr, env>>
+  /\ UNCHANGED <<m, fr, env, pm>>
 
 (******************************* SolveStress ******************************)
 \* positions (into x) reported as -1 / expected to be excluded
@@ -88,25 +88,32 @@ C05Solve(e) ==
       n == Len(x)
       rows == fm.rows
       lam == BestLambda(rows, e.b, x)
+      lamFree == IF Len(rows) = 0 THEN 0 ELSE TDiv(SumRes(rows, e.b, x, 1), 2 * Len(rows))
       square == 2 * Len(rows) = n
-      exact == ResidualSmall(rows, e.b, x, lam, n, 200)
       consistent == ResidualSmall(rows, e.b, x, lam, n, 2000)
-      invPath == square /\ e.opts.allow_neg /\ e.opts.method \in {"default"}
-      gradBad == KKTGradBad(rows, e.b, x, lam, n)
-      compBad == KKTCompBad(rows, e.b, x, lam, n)
-      needKKT == ~(invPath /\ exact)
+      \* known finding: on a square system the default back-end returns the exact solution of the augmented
+      \* system without constraining the signs (the multiplier is never checked; tensions only when
+      \* allow_negatives is off), so the result need not be the NON-NEGATIVE optimum
+      invUnconstrained == /\ square /\ e.opts.method = "default"
+                          /\ ResidualSmall(rows, e.b, x, lamFree, n, 200)
+                          /\ (lamFree < -TolZ \/ (e.opts.allow_neg /\ \E c \in DOMAIN x : x[c] < -TolZ))
+      kktFails == SetIf(~KKTPrimalOK(x, lam), "C05.kkt_primal")
+                  \cup SetIf(KKTGradBad(rows, e.b, x, lam, n) # {}, "C05.kkt_gradient")
+                  \cup SetIf(KKTCompBad(rows, e.b, x, lam, n) # {}, "C05.kkt_complementarity")
+                  \cup SetIf(~KKTLamOK(rows, e.b, x, lam), "C05.kkt_multiplier")
+      kkt == IF e.finite THEN kktFails ELSE {}
   IN [fails |-> SetIf(~e.finite, "C05.finite")
                 \cup SetIf(e.finite /\ Len(e.x) # Len(fr.internal), "C05.length")
                 \cup SetIf(e.finite /\ ~e.opts.allow_neg /\ \E c \in DOMAIN x : x[c] < -TolZ, "C05.negative")
-                \cup SetIf(e.finite /\ needKKT /\ ~KKTPrimalOK(x, lam), "C05.kkt_primal")
-                \cup SetIf(e.finite /\ needKKT /\ gradBad # {}, "C05.kkt_gradient")
-                \cup SetIf(e.finite /\ needKKT /\ compBad # {}, "C05.kkt_complementarity")
-                \cup SetIf(e.finite /\ needKKT /\ ~KKTLamOK(rows, e.b, x, lam), "C05.kkt_multiplier")
+                \cup (IF invUnconstrained THEN {} ELSE kkt)
                 \cup SetIf(e.finite /\ consistent /\ Abs(ResSum(x, n)) > 100 + 2 * n, "C05.mean_one"),
-      kf |-> {},
-      hits |-> {"C05.solve"} \cup SetIf(invPath /\ exact, "C05.path_inversion") \cup SetIf(needKKT, "C05.path_nnls")
+      kf |-> IF invUnconstrained THEN {"KF_InversionUnconstrained:" \o c : c \in kkt} ELSE {},
+      hits |-> {"C05.solve"} \cup SetIf(square /\ e.opts.method = "default" /\ ResidualSmall(rows, e.b, x, lamFree, n, 200), "C05.path_inversion")
+               \cup SetIf(~square \/ ~ResidualSmall(rows, e.b, x, lamFree, n, 200), "C05.path_fallback_or_selected")
+               \cup SetIf(e.opts.method # "default", "C05.backend_" \o e.opts.method)
                \cup SetIf(consistent, "C05.consistent") \cup SetIf(~consistent, "C05.inconsistent")
                \cup SetIf(\E c \in DOMAIN x : x[c] <= TolZ, "C05.active_bound")
+               \cup SetIf(~e.opts.allow_neg, "C05.negatives_disallowed")
                \cup SetIf(\E k \in DOMAIN e.b : e.b[k][1] # 0 \/ e.b[k][2] # 0, "C05.velocity_rhs"),
       rejected |-> FALSE]
 
@@ -126,11 +133,12 @@ C01Solve(e) ==
                             (\/ KF_TwoPointIfc(env, q) \/ KF_SignForcedEnd(env, q, fm.rows[k].v)
                              \/ KF_LineFitPerpEnd(env, q, fm.rows[k].v, Entry(fm.rows[k], ColOf(fm, i))))
       twoPoint == \E i \in InternalIdx(m, fr) : LET q == PhysOf(env, fr.ifaces[i]) IN q # 0 /\ KF_TwoPointIfc(env, q)
-  IN [fails |-> SetIf(bad # {} /\ ~contaminated /\ ~twoPoint, "C01.tension"),
-      kf |-> SetIf(bad # {} /\ twoPoint, "KF_TwoPointInterface:C01.tension")
-             \cup SetIf(bad # {} /\ ~twoPoint /\ contaminated, "KF_TangentDefects:C01.tension"),
-      hits |-> {"C01.tension"} \cup SetIf(~contaminated /\ ~twoPoint, "C01.clean_case"),
-      rejected |-> ~env.equilibrium \/ ~EnvTangentsOK(env)]
+      premise == env.equilibrium /\ EnvTangentsOK(env)
+  IN [fails |-> SetIf(premise /\ bad # {} /\ ~contaminated /\ ~twoPoint, "C01.tension"),
+      kf |-> SetIf(premise /\ bad # {} /\ twoPoint, "KF_TwoPointInterface:C01.tension")
+             \cup SetIf(premise /\ bad # {} /\ ~twoPoint /\ contaminated, "KF_TangentDefects:C01.tension"),
+      hits |-> SetIf(premise, "C01.tension") \cup SetIf(premise /\ ~contaminated /\ ~twoPoint, "C01.clean_case"),
+      rejected |-> ~premise]
 
 C16Solve(e) ==
   [fails |-> SetIf(ExclPos(e) # ExpExclPos, "C16.minus_one_positions"),
@@ -149,19 +157,129 @@ DoSolveStress(e) ==
          pre(set, p) == {p \o s : s \in set}
          c05f == IF Want("C05") THEN c05.fails ELSE {}
          c16r == IF Want("C16") THEN {"C16.restricted_" \o "solution" : s \in {t \in c05.fails : t # "C05.length"}} ELSE {}
-     IN EmitV(e, c05f \cup c16r \cup c01.fails \cup c16.fails \cup SetIf(raised, "SOLVE.raised"),
-              c01.kf, c05.hits \cup c01.hits \cup c16.hits, {}, c01.rejected)
+         fixStress == raised /\ e.opts.method = "fix_stress"
+     IN EmitV(e, c05f \cup c16r \cup c01.fails \cup c16.fails \cup SetIf(raised /\ ~fixStress, "SOLVE.raised"),
+              c01.kf \cup (IF Want("C05") THEN c05.kf ELSE {}) \cup SetIf(fixStress, "KF_FixStress:SOLVE.raised"), c05.hits \cup c01.hits \cup c16.hits, {}, c01.rejected)
+  /\ UNCHANGED <<m, fr, env, fm, bo, pm>>
+
+(******************************* pressure (C04) ***************************)
+Rng2(q) == {q[j] : j \in DOMAIN q}
+RowOfIfc(P, i) == IF \E q \in DOMAIN P.rows : P.rows[q].i = i THEN CHOOSE q \in DOMAIN P.rows : P.rows[q].i = i ELSE 0
+\* the cell on the side of the centre of curvature of physical interface ph (0 if straight / unknown)
+CentreCell(ph) == IF env.E[ph].theta > 0 THEN env.E[ph].left ELSE IF env.E[ph].theta < 0 THEN env.E[ph].right ELSE 0
+TolTurn == 30
+C04Build(e) ==
+  LET P == e.pm
+      internal == InternalIdx(m, fr)
+      rowIfcs == {P.rows[q].i : q \in DOMAIN P.rows}
+      structBad == {q \in DOMAIN P.rows : LET r == P.rows[q] IN
+                      ~(/\ Len(r.c) = 2
+                        /\ {r.c[1][2], r.c[2][2]} = {1, -1}
+                        /\ r.i \in internal
+                        /\ {r.c[1][1], r.c[2][1]} = SepCells(m, fr.ifaces[r.i]))}
+      rhsBad == {q \in DOMAIN P.rows : LET r == P.rows[q] IN ~Close(r.rhs, Mul(r.T, r.turn), 5 + Abs(r.rhs) \div 100000)}
+      signBad == {q \in DOMAIN P.rows \ structBad : LET r == P.rows[q]  ph == PhysOf(env, fr.ifaces[r.i]) IN
+                      /\ ph # 0 /\ r.T > 1000 /\ Abs(env.E[ph].theta) > 20000 /\ Abs(r.rhs) > 100 /\ CentreCell(ph) # 0
+                      /\ LET plus == IF r.c[1][2] = 1 THEN r.c[1][1] ELSE r.c[2][1]
+                              minus == IF r.c[1][2] = 1 THEN r.c[2][1] ELSE r.c[1][1]
+                          IN  ~((r.rhs > 0 /\ plus = CentreCell(ph)) \/ (r.rhs < 0 /\ minus = CentreCell(ph)))}
+      straightBad == {q \in DOMAIN P.rows : LET r == P.rows[q]  ph == PhysOf(env, fr.ifaces[r.i]) IN
+                      ph # 0 /\ env.E[ph].straight /\ Abs(r.turn) > TolTurn}
+      \* |turn| * (n-1) within 3% of |theta| * (n-2): uniformly sampled arcs only (not resampled), |theta| <= 1.5
+      arcRows == {q \in DOMAIN P.rows : LET r == P.rows[q]  ph == PhysOf(env, fr.ifaces[r.i]) IN
+                      ph # 0 /\ ~e.resampled /\ ~env.E[ph].straight /\ env.E[ph].npts >= 3 /\ env.E[ph].npts = Len(fr.ifaces[r.i])
+                      /\ Abs(env.E[ph].theta) <= 1500000 /\ Abs(env.E[ph].theta) >= 20000}
+      arcBad == {q \in arcRows : LET r == P.rows[q]  ph == PhysOf(env, fr.ifaces[r.i])  n == env.E[ph].npts
+                                     want == Abs(env.E[ph].theta) * (n - 2)  got == Abs(r.turn) * (n - 1)
+                                 IN Abs(got - want) > (want \div 100) * 3 + 4 * n}
+  IN [fails |-> SetIf(rowIfcs # internal \/ Len(P.rows) # Cardinality(internal), "C04.rows_cover")
+                \cup SetIf(structBad # {}, "C04.row_structure")
+                \cup SetIf(rhsBad # {}, "C04.rhs_value")
+                \cup SetIf(signBad # {}, "C04.sign_rule")
+                \cup SetIf(straightBad # {}, "C04.turning_straight")
+                \cup SetIf(arcBad # {}, "C04.turning_arc"),
+      kf |-> {},
+      hits |-> {"C04.build"} \cup SetIf(arcRows # {}, "C04.turning_arc") \cup SetIf(Len(P.rows) > 0, "C04.rows")
+               \cup SetIf(\E q \in DOMAIN P.rows : LET ph == PhysOf(env, fr.ifaces[P.rows[q].i]) IN ph # 0 /\ Abs(env.E[ph].theta) > 20000, "C04.sign_rule")
+               \cup SetIf(P.removed # <<>>, "C04.cells_without_interface"),
+      rejected |-> FALSE]
+
+DoBuildPressure(e) ==
+  /\ e.ev = "BuildPressure"
+  /\ LET raised == e.raised # ""
+         c04 == IF ~raised /\ Want("C04") THEN C04Build(e) ELSE [fails |-> {}, kf |-> {}, hits |-> {}, rejected |-> FALSE]
+         \* known finding of C08: a two-point border interface classified internal has a single cell; the pressure step raises
+         kfNotch == raised /\ \E i \in InternalIdx(m, fr) : Len(fr.ifaces[i]) = 2 /\ Cardinality(SepCells(m, fr.ifaces[i])) = 1
+     IN EmitV(e, c04.fails \cup SetIf(raised /\ ~kfNotch, "C04.build_raised"), SetIf(kfNotch, "KF_BorderTwoPoint:C04.build_raised"), c04.hits, {}, FALSE)
+  /\ pm' = IF e.raised # "" THEN None ELSE e.pm
   /\ UNCHANGED <<m, fr, env, fm, bo>>
 
-(******************************* plumbing *********************************)
-DoMesh(e)  == e.ev = "Mesh"  /\ EmitV(e, {}, {}, {}, {}, FALSE) /\ m' = e.mesh /\ UNCHANGED <<fr, env, fm, bo>>
-DoFrame(e) == e.ev = "Frame" /\ EmitV(e, {}, {}, {}, {}, FALSE) /\ fr' = e.f /\ UNCHANGED <<m, env, fm, bo>>
-DoEnv(e)   == e.ev = "Env"   /\ EmitV(e, {}, {}, {}, {}, FALSE) /\ env' = e /\ fm' = None /\ bo' = None /\ UNCHANGED <<m, fr>>
+PRows == [q \in DOMAIN pm.rows |-> LET r == pm.rows[q] IN
+            [hi |-> IF r.c[1][2] = 1 THEN r.c[1][1] ELSE r.c[2][1], lo |-> IF r.c[1][2] = 1 THEN r.c[2][1] ELSE r.c[1][1], rhs |-> r.rhs]]
+\* connectedness of the graph (cells having an internal interface, internal interfaces) by reachability
+RECURSIVE Reach(_, _)
+Reach(S, edges) == LET T == S \cup {p[2] : p \in {q \in edges : q[1] \in S}} \cup {p[1] : p \in {q \in edges : q[2] \in S}}
+                   IN IF T = S THEN S ELSE Reach(T, edges)
+C04Solve(e) ==
+  LET rows == PRows
+      ok == \A q \in DOMAIN pm.rows : Len(pm.rows[q].c) = 2
+      edges == {<<rows[q].hi, rows[q].lo>> : q \in DOMAIN rows}
+      cellsIn == {p[1] : p \in edges} \cup {p[2] : p \in edges}
+      connected == cellsIn # {} /\ Reach({CHOOSE c \in cellsIn : TRUE}, edges) = cellsIn
+      deg(c) == Cardinality({q \in DOMAIN rows : rows[q].hi = c \/ rows[q].lo = c})
+      tolN(c) == 60 + 12 * deg(c)
+      neBad == {c \in cellsIn : Abs(NormalEq(rows, e.p, c)) > tolN(c)}
+      sumP == SumSeq(e.p)
+      isoBad == {c \in DOMAIN e.p : c \notin cellsIn /\ e.p[c] # 0}
+      \* Pearson correlation with the analytic pressures >= 0.9 (cells with known analytic pressure)
+      KS == {c \in DOMAIN e.p : e.pa_known[c] /\ c \in cellsIn}
+      nK == Cardinality(KS)
+      meanP == SumFrom(LAMBDA c : IF c \in KS THEN e.p[c] ELSE 0, 1, Len(e.p)) \div Max(nK, 1)
+      meanA == SumFrom(LAMBDA c : IF c \in KS THEN e.pa[c] ELSE 0, 1, Len(e.p)) \div Max(nK, 1)
+      cov == SumFrom(LAMBDA c : IF c \in KS THEN Mul(e.p[c] - meanP, e.pa[c] - meanA) ELSE 0, 1, Len(e.p))
+      vP  == SumFrom(LAMBDA c : IF c \in KS THEN Mul(e.p[c] - meanP, e.p[c] - meanP) ELSE 0, 1, Len(e.p))
+      vA  == SumFrom(LAMBDA c : IF c \in KS THEN Mul(e.pa[c] - meanA, e.pa[c] - meanA) ELSE 0, 1, Len(e.p))
+      contaminated == fm = None \/ KF_FarFromOrigin(env, bo.fit) \/ \E k \in DOMAIN fm.rows : \E i \in InternalEndingAt(m, fr, fm.rows[k].v) :
+                         LET q == PhysOf(env, fr.ifaces[i]) IN q # 0 /\
+                            (\/ KF_TwoPointIfc(env, q) \/ KF_SignForcedEnd(env, q, fm.rows[k].v)
+                             \/ KF_LineFitPerpEnd(env, q, fm.rows[k].v, Entry(fm.rows[k], ColOf(fm, i))))
+      corrPremise == /\ env.equilibrium /\ e.pa_consistent /\ env.k >= 3 /\ nK >= 5 /\ ~contaminated /\ connected
+                     /\ vA > 1000 /\ \E q \in DOMAIN env.E : ~env.E[q].straight
+      corrOK == cov > 0 /\ Mul(cov, cov) >= Mul(810000, Mul(vP, vA))
+  IN [fails |-> SetIf(~e.finite, "C04.finite")
+                \cup SetIf(e.finite /\ ok /\ connected /\ neBad # {}, "C04.normal_equations")
+                \cup SetIf(e.finite /\ ok /\ connected /\ Abs(sumP) > 30 + 2 * Len(e.p), "C04.zero_sum")
+                \cup SetIf(e.finite /\ isoBad # {}, "C04.isolated_zero")
+                \cup SetIf(e.finite /\ ok /\ corrPremise /\ ~corrOK, "C04.correlation"),
+      kf |-> {},
+      hits |-> {"C04.solve"} \cup SetIf(connected, "C04.connected") \cup SetIf(corrPremise, "C04.correlation")
+               \cup SetIf(\E c \in DOMAIN e.p : c \notin cellsIn, "C04.isolated_zero"),
+      rejected |-> ~connected]
 
-DoSkip(e)  == e.ev = "Skip"  /\ EmitV(e, {}, {}, {}, {}, TRUE) /\ UNCHANGED <<m, fr, env, fm, bo>>
+DoSolvePressure(e) ==
+  /\ e.ev = "SolvePressure"
+  /\ LET raised == e.raised # ""
+         c04 == IF ~raised /\ pm # None /\ Want("C04") THEN C04Solve(e) ELSE [fails |-> {}, kf |-> {}, hits |-> {}, rejected |-> FALSE]
+     IN EmitV(e, c04.fails \cup SetIf(raised, "C04.solve_raised"), {}, c04.hits, {}, c04.rejected)
+  /\ UNCHANGED <<m, fr, env, fm, bo, pm>>
+
+DoPressureLin(e) ==
+  /\ e.ev = "PressureLin"
+  /\ LET raised == e.raised # ""
+         bad == IF raised THEN {} ELSE {c \in DOMAIN e.p3 : ~Close(e.p3[c], Mul(e.a, e.p1[c]) + Mul(e.b, e.p2[c]), 30 + Abs(e.p3[c]) \div 20000)}
+     IN EmitV(e, SetIf(bad # {}, "C04.linearity") \cup SetIf(raised, "C04.linearity_raised"), {}, {"C04.linearity"}, {}, FALSE)
+  /\ UNCHANGED <<m, fr, env, fm, bo, pm>>
+
+(******************************* plumbing *********************************)
+DoMesh(e)  == e.ev = "Mesh"  /\ EmitV(e, {}, {}, {}, {}, FALSE) /\ m' = e.mesh /\ UNCHANGED <<fr, env, fm, bo, pm>>
+DoFrame(e) == e.ev = "Frame" /\ EmitV(e, {}, {}, {}, {}, FALSE) /\ fr' = e.f /\ UNCHANGED <<m, env, fm, bo, pm>>
+DoEnv(e)   == e.ev = "Env"   /\ EmitV(e, {}, {}, {}, {}, FALSE) /\ env' = e /\ fm' = None /\ bo' = None /\ pm' = None /\ UNCHANGED <<m, fr>>
+
+DoSkip(e)  == e.ev = "Skip"  /\ EmitV(e, {}, {}, {}, {}, TRUE) /\ UNCHANGED <<m, fr, env, fm, bo, pm>>
 
 Next == /\ l <= Len(TR)
         /\ LET e == TR[l] IN DoMesh(e) \/ DoFrame(e) \/ DoEnv(e) \/ DoBuildForce(e) \/ DoSolveStress(e) \/ DoSkip(e)
+                         \/ DoBuildPressure(e) \/ DoSolvePressure(e) \/ DoPressureLin(e)
         /\ l' = l + 1
 Spec == Init /\ [][Next]_vars
 Done == TLCGet("stats").diameter - 1 = Len(TR)
